@@ -316,6 +316,9 @@ def run(prog, tier, extra=None):
     # "incompatible versions never yield a connected peer": the version checks read what the handshake decoder produced; a decoder
     # that invents or skips a field (core_version filled from another field, a trailing field left at its default) defeats them
     from ._include import include
+    include(res, prog, tier, extra, "c11", ["C11.peer-assert"],
+            "a response under an unexpected key must be refused like any other bad response, not asserted on (the remote side chooses it)",
+            keep=lambda f: "peers::peer::" in f.key or "handshake" in f.key.lower())
     include(res, prog, tier, extra, "c09", ["C09.no-field-skipped", "C09.read-before-decode", "C09.layout"],
             "the handshake checks judge the decoded HandshakeChallenge / HandshakeResponse: every field is read from the bytes the peer sent, at the offset it was written",
             keep=lambda f: "Handshake" in f.key)
